@@ -45,7 +45,7 @@ class Adapter(EnvAdapter):
         ts = sorted(set((8, 9) + tuple(T_SWEEP_QUICK_FEW if tier == "quick" else T_SWEEP_THOROUGH_FEW)))
         return self._base_configs(tier) + [
             _c(f"r2x4a{1 + t % 2}_t{t}_sweep", "random", 2, 4, 1 + t % 2, t, 0.5, episodes=1, max_steps=t + 2, policies=["shuttle"],
-               probe_every=0, props=["C03", "C11"]) for t in ts]
+               probe_every=0, props=["C01", "C03", "C11", "C12"]) for t in ts]
 
     def _base_configs(self, tier):
         if tier == "quick":
